@@ -1133,6 +1133,25 @@ def _run_problems(callrec, ret, name, asked_provider):
     return out
 
 
+def _stored_block_indexes(height):
+    """Independent look (sqlite3, read only): chain transaction name -> stored in-block position for one block height."""
+    import sqlite3
+    c = _state['W'].c
+    try:
+        con = sqlite3.connect('file:%s?mode=ro' % _state['dbp'], uri=True)
+        rows = con.execute('select txid, "index" from cache_transactions where block_height=?', (height,)).fetchall()
+        con.close()
+    except Exception:
+        return None
+    out = {}
+    for txid, i in rows:
+        n = c.by_txid.get(bytes(txid).hex())
+        if n is None:
+            return None
+        out[n] = i
+    return out
+
+
 def _page_problems(callrec, ret, from_cache=False):
     """The transactions of a returned block are exactly the requested page of the block."""
     c = _state['W'].c
@@ -1147,8 +1166,20 @@ def _page_problems(callrec, ret, from_cache=False):
     got = [c.by_txid.get(el.txid if isinstance(el, S.Transaction) else el) for el in ret.transactions]
     if got != exp:
         key = ''
-        if from_cache and None not in got and len(got) == len(exp) and set(got) == set(exp):
-            key = K_PAGE_ORDER + '|'       # same transactions, only their order differs (cache query has no ORDER BY)
+        if from_cache and None not in got and len(got) == len(exp):
+            # two disjoint known mechanisms, told apart by an independent read of the stored in-block positions
+            stored = _stored_block_indexes(b[0]['height'])
+            if stored is not None:
+                wrong = any(stored.get(n) != c.txs[n]['index'] for n in stored)
+                if not wrong:
+                    if set(got) == set(exp):
+                        key = K_PAGE_ORDER + '|'    # positions stored correctly, same transactions, only the order differs
+                else:
+                    n_from, n_to = (page - 1) * limit, page * limit
+                    in_range = [n for n, i in stored.items() if i is not None and n_from <= i < n_to]
+                    idx = [stored.get(n) for n in got]
+                    if sorted(in_range) == sorted(got) and None not in idx and idx == sorted(idx):
+                        key = K_INDEX_ORDER + '|'   # the page rule applied to wrongly stored positions yields exactly this page
         return [('partial', key + 'getblock(%s, page=%s, limit=%s) returned transactions %s, the requested page of the block is %s' % (
             [k for k, v in c.blocks.items() if v is b[0]][0], page, limit, got, exp))]
     return []
